@@ -138,9 +138,11 @@ func (t *KernMethod) TransferGovernTokens(ctx contract.KContext) (*contract.Resp
 	receiverKey := utils.MakeAccountBalanceKey(string(receiverBuf))
 	receiverBalanceBuf, err := ctx.Get(utils.GetGovernTokenBucket(), []byte(receiverKey))
 	if err == nil {
-		receiverBalanceOld := &utils.GovernTokenBalance{}
+		receiverBalanceOld := utils.NewGovernTokenBalance()
 		json.Unmarshal(receiverBalanceBuf, receiverBalanceOld)
 		receiverBalance.TotalBalance.Add(receiverBalance.TotalBalance, receiverBalanceOld.TotalBalance)
+		// the receiver keeps its locked balances
+		receiverBalance.LockedBalance = receiverBalanceOld.LockedBalance
 	}
 
 	// 更新receiver余额
